@@ -256,7 +256,7 @@ func (dt DateTime) Sub(input Quantity) (DateTime, error) {
 		if err != nil {
 			return DateTime{}, err
 		}
-		return DateTime{dt.dateTime.AddDate(0, -months, 0), dt.l}, nil
+		return DateTime{addMonth(dt.dateTime, -months), dt.l}, nil // (clamped: the value of a month-precision element may stand on any day of its month)
 	}
 
 	// Handles non-partial dates here.
